@@ -245,7 +245,8 @@ def run_shape(job):
             except Exception as e:
                 out['ht_verify'].append([n, ht, 'raised %r' % e, None])
         # ---- second phase: the transaction is changed through the library's own mutators, then signed again
-        mut = rng.choice(['locktime_blocks', 'locktime_time', 'rel_blocks', 'rel_time', 'add_output', 'out_value', 'add_input', 'none'])
+        mut = rng.choice(['locktime_blocks', 'locktime_time', 'rel_blocks', 'rel_time', 'add_output', 'out_value', 'add_input', 'none', 'merge',
+                          'merge'])
         out['mutation'] = mut
         try:
             j = rng.randrange(len(ins))
@@ -270,6 +271,29 @@ def run_shape(job):
                             witness_type='legacy')
                 out['pubs'] = out['pubs'] + [[k.public_byte.hex()]]
                 out['added_input'] = True
+            elif mut == 'merge':
+                # a second transaction (one legacy and one witness input, one output) is merged in: inputs and outputs of both,
+                # in an order the library chooses
+                random.seed(idx)
+                tb = Transaction(network=net, witness_type='segwit' if segwit_ok else 'legacy')
+                for q, kind_b in enumerate(['p2pkh', 'p2wpkh' if segwit_ok else 'p2pkh']):
+                    k = Key(rng.randrange(1, ref.N), network=net)
+                    ins.append({'kind': kind_b, 'm': 1, 'privs': [int(k.secret)], 'compressed': True, 'txid': bytes([0xa6 + q]) * 32, 'vout': q,
+                                'amount': 7000 + q, 'seq': 0xffffffff})
+                    keyobjs.append([k])
+                    tb.add_input(prev_txid=bytes([0xa6 + q]) * 32, output_n=q, keys=k.public(), script_type='sig_pubkey', value=7000 + q,
+                                 witness_type='legacy' if kind_b == 'p2pkh' else 'segwit')
+                tb.add_output(3000, lock_script=b'\x52')
+                if rng.random() < 0.5:
+                    t.merge_transaction(tb)
+                else:
+                    t = t + tb
+            # the inputs in the order the transaction now has them
+            order = [next(j for j, i in enumerate(ins) if i['txid'] == x.prev_txid and i['vout'] == x.output_n_int) for x in t.inputs]
+            ins = [ins[j] for j in order]
+            keyobjs = [keyobjs[j] for j in order]
+            out['mut_meta'] = [{'kind': i['kind'], 'amount': i['amount'], 'm': i['m'], 'pubs': [k.public_byte.hex() for k in ks]}
+                               for i, ks in zip(ins, keyobjs)]
             for n, (i, ks) in enumerate(zip(ins, keyobjs)):
                 chosen = random.Random(idx * 1000 + n).sample(ks, i['m'])
                 t.inputs[n].signatures = []          # (re-signing over existing signatures is C02's subject)
@@ -406,17 +430,17 @@ def run(replay=None):
     second = [(sh, r) for sh, r in good if 'mut_raw' in r]
     recs2 = []
     for sh, r in second:
-        rec = spec_record(sh, dict(r, raw=r['mut_raw'], pubs=r['pubs'][:len(sh['ins'])]))
-        if r.get('added_input'):
-            pub = bytes.fromhex(r['pubs'][-1][0])
-            rec['meta'].append({'kind': 'p2pkh', 'amount': blist(le(5000, 8)), 'pkh': blist(ref.hash160(pub)), 'pub': blist(pub),
-                                'keys': [blist(pub)], 'm': 1})
-        recs2.append(rec)
+        meta = []
+        for mm in r['mut_meta']:
+            pubs = [bytes.fromhex(p) for p in mm['pubs']]
+            meta.append({'kind': mm['kind'], 'amount': blist(le(mm['amount'], 8)), 'pkh': blist(ref.hash160(pubs[0])), 'pub': blist(pubs[0]),
+                         'keys': [blist(p) for p in pubs], 'm': mm['m']})
+        recs2.append({'raw': blist(bytes.fromhex(r['mut_raw'])), 'meta': meta, 'hts': HASH_TYPES})
     specs2 = common.tlc_eval('SigHashEval', recs2, timeout=3000)
     nmut = {}
     for (sh, r), sp in zip(second, specs2):
         case = {'shape': dict(sh, ins=[dict(i, txid=i['txid'].hex()) for i in sh['ins']]), 'mutation': r['mutation']}
-        kinds = [i['kind'] for i in sh['ins']] + (['p2pkh'] if r.get('added_input') else [])
+        kinds = [mm['kind'] for mm in r['mut_meta']]
         nmut[r['mutation']] = nmut.get(r['mutation'], 0) + 1
         ck.traces += 1
         if not sp['ok']:
@@ -434,8 +458,8 @@ def run(replay=None):
                 ck.violation(None, 'clause digest-after-change; %s: signature_hash = %s, consensus digest of the serialized transaction = %s'
                              % (where, r['mut_digests'][n], digest.hex()), case)
             z = int.from_bytes(digest, 'big')
-            pubs = [ref.parse_point(bytes.fromhex(p)) for p in r['pubs'][n]]
-            need = sh['ins'][n]['m'] if n < len(sh['ins']) else 1
+            pubs = [ref.parse_point(bytes.fromhex(p)) for p in r['mut_meta'][n]['pubs']]
+            need = r['mut_meta'][n]['m']
             nvalid = sum(1 for rs in r['mut_sigs'][n] if any(ref.ecdsa_verify(pt, z, int(rs[0]), int(rs[1])) for pt in pubs))
             if nvalid < need:
                 ck.violation(None, 'clause signature-invalid-after-change; %s: %d of the %d signatures verify over the consensus digest, %d needed'
